@@ -10,6 +10,7 @@ import (
 	"bytes"
 	"fmt"
 	"math"
+	"math/rand"
 	"os"
 	"slices"
 	"sort"
@@ -33,12 +34,13 @@ type op struct {
 }
 
 type caseT struct {
-	Site    string `json:"site"`
-	Order   string `json:"order"` // int | rev | str | mod
-	HSeed   int64  `json:"hseed"` // virtual nanoseconds since bubble epoch at which New is called
-	History []op   `json:"history"`
-	Audit   int    `json:"audit"` // full audit every Audit operations (1 = every op)
-	Big     *bigT  `json:"big,omitempty"`
+	Site    string  `json:"site"`
+	Order   string  `json:"order"` // int | rev | str | mod
+	HSeed   int64   `json:"hseed"` // virtual nanoseconds since bubble epoch at which New is called
+	History []op    `json:"history"`
+	Audit   int     `json:"audit"` // full audit every Audit operations (1 = every op)
+	Big     *bigT   `json:"big,omitempty"`
+	Draws   []int64 `json:"draws,omitempty"` // hook: the first draws of the list's height generator (verification build)
 }
 
 var rec *common.Recorder
@@ -290,6 +292,13 @@ func runCase(c caseT) {
 		rec.Violate(site+"new/panic", fmt.Sprint(p), c)
 		return
 	}
+	if len(c.Draws) > 0 {
+		if !hookEnabled {
+			rec.Inconclusive("a case with driven node heights needs the verification build (tag verif)")
+			return
+		}
+		d.(interface{ setSource(rand.Source) }).setSource(&scripted{draws: c.Draws, rest: rand.NewSource(c.HSeed)})
+	}
 	model := map[int]int{}
 	universe := map[int]bool{}
 	nontrivial := false
@@ -419,6 +428,7 @@ func TestRun(t *testing.T) {
 		return // under the race detector only the owners family runs: everything else is single-goroutine
 	}
 	bigCases(t)
+	drivenCases(t)
 	orders := []string{"int", "rev", "str", "mod", "ptr", "iface", "pct", "f64", "ibytes", "reent"}
 	// ---- exhaustive: all histories over 3 keys
 	depth := common.Pick(5, 6)
